@@ -46,7 +46,7 @@ def strategy(draw, tier="quick"):
     s = st.lists(st.sampled_from(SIG), max_size=2)
     pairs = draw(st.lists(st.tuples(s, s).map(list), min_size=8, max_size=8))
     fp = draw(st.lists(st.tuples(st.lists(st.sampled_from(SIG), max_size=3), st.lists(st.sampled_from(SIG), max_size=3)).map(list), max_size=3))
-    return {"f": f, "g": g, "pairs": pairs, "from_pairs": fp}
+    return {"f": f, "g": g, "pairs": pairs, "from_pairs": fp, "order": draw(st.sampled_from(["compose_first", "eval_first"]))}
 
 
 def check(case, ctx):
@@ -66,46 +66,61 @@ def check(case, ctx):
     pairs = [(x, z) for x in short for z in short] + [(tuple(x), tuple(z)) for x, z in case["pairs"]]
     pairs = list(dict.fromkeys(pairs))
 
-    # ---- composition
-    C = ctx.call("matmul", lambda: F @ G)
-    nz = False
-    if not isinstance(C, LibRaised):
-        CT = ctx.call("matmul.read", RT.from_lib, M, C)
-        for x, z in pairs:
-            want = autoref.compose_ref(f, g, x, z)
-            nz = nz or not M.is_zero(want)
+    state = {"nz": False}
+
+    def compose(F_, G_, f_, g_, key, prs):
+        C = ctx.call(key, lambda: F_ @ G_)
+        if isinstance(C, LibRaised):
+            return
+        CT = ctx.call(key + ".read", RT.from_lib, M, C)
+        for x, z in prs:
+            want = autoref.compose_ref(f_, g_, x, z)
+            state["nz"] = state["nz"] or not M.is_zero(want)
             if not isinstance(CT, LibRaised):
                 ctx.evals += 1
                 have = autoref.rel(CT, x, z)
                 if not M.eq(have, want):
-                    ctx.fail("matmul|neq", f"(f@g) read as data: ({x},{z}) has weight {M.show(have)}, sum_y f(x,y) g(y,z) = {M.show(want)}")
+                    ctx.fail(key + "|neq", f"({key}) read as data: ({x},{z}) has weight {M.show(have)}, sum_y f(x,y) g(y,z) = {M.show(want)}")
                     CT = LibRaised(None)
-        for x, z in pairs[:6]:
-            have = ctx.call("matmul.call", C, x, z)
-            ctx.eq("matmul.call", M, have, autoref.compose_ref(f, g, x, z), what=f"({x},{z})")
-    ctx.nontrivial = nz and "eps_output" in clf and "eps_input" in clg
+        for x, z in prs[:6]:
+            have = ctx.call(key + ".call", C, x, z)
+            ctx.eq(key + ".call", M, have, autoref.compose_ref(f_, g_, x, z), what=f"({x},{z})")
 
-    # ---- evaluation, cross-sections, transpose, projections of f
-    FT = ctx.call("T", lambda: F.T)
-    for x, y in pairs[:10]:
-        want = autoref.rel(f, x, y)
-        ctx.eq("call", M, ctx.call("call", F, x, y), want, what=f"f({x},{y})")
-        xs = ctx.call("xsection_in", F, x, None)
-        if not isinstance(xs, LibRaised):
-            ctx.eq("xsection_in", M, ctx.call("xsection_in.call", xs, y), want, what=f"f({x},None)({y})")
-        ys = ctx.call("xsection_out", F, None, y)
-        if not isinstance(ys, LibRaised):
-            ctx.eq("xsection_out", M, ctx.call("xsection_out.call", ys, x), want, what=f"f(None,{y})({x})")
-        if not isinstance(FT, LibRaised):
-            ctx.eq("T", M, ctx.call("T.call", FT, y, x), want, what=f"f.T({y},{x})")
-    for axis in (0, 1):
-        P = ctx.call(f"project{axis}", F.project, axis)
-        if isinstance(P, LibRaised):
-            continue
-        proj = RA(M, f.n, f.start, f.stop, [(q, (a if axis == 0 else b), r, w) for q, a, b, r, w in f.arcs])
-        W = autoref.Weights(proj)
-        for x in gen.all_strings(SIG, 2):
-            ctx.eq(f"project{axis}", M, ctx.call(f"project{axis}.call", P, x), W(x), what=f"x={x}")
+    def evaluate():
+        # ---- evaluation, cross-sections, transpose, projections of f
+        FT = ctx.call("T", lambda: F.T)
+        for x, y in pairs[:10]:
+            want = autoref.rel(f, x, y)
+            ctx.eq("call", M, ctx.call("call", F, x, y), want, what=f"f({x},{y})")
+            xs = ctx.call("xsection_in", F, x, None)
+            if not isinstance(xs, LibRaised):
+                ctx.eq("xsection_in", M, ctx.call("xsection_in.call", xs, y), want, what=f"f({x},None)({y})")
+            ys = ctx.call("xsection_out", F, None, y)
+            if not isinstance(ys, LibRaised):
+                ctx.eq("xsection_out", M, ctx.call("xsection_out.call", ys, x), want, what=f"f(None,{y})({x})")
+            if not isinstance(FT, LibRaised):
+                ctx.eq("T", M, ctx.call("T.call", FT, y, x), want, what=f"f.T({y},{x})")
+        for axis in (0, 1):
+            P = ctx.call(f"project{axis}", F.project, axis)
+            if isinstance(P, LibRaised):
+                continue
+            proj = RA(M, f.n, f.start, f.stop, [(q, (a if axis == 0 else b), r, w) for q, a, b, r, w in f.arcs])
+            W = autoref.Weights(proj)
+            for x in gen.all_strings(SIG, 2):
+                ctx.eq(f"project{axis}", M, ctx.call(f"project{axis}.call", P, x), W(x), what=f"x={x}")
+
+
+    # the same two objects serve every query, in a drawn order: an object that was evaluated (or used
+    # as the left operand) before must behave the same as the right operand afterwards
+    if case.get("order") == "eval_first":
+        ctx.cls("order:eval_first")
+        evaluate()
+        compose(F, G, f, g, "matmul", pairs)
+    else:
+        compose(F, G, f, g, "matmul", pairs)
+        evaluate()
+    compose(G, F, g, f, "matmul_rev", pairs[:6])
+    ctx.nontrivial = state["nz"] and "eps_output" in clf and "eps_input" in clg
 
     # ---- constructors
     for x in [(), ("a",), ("a", "b")]:
